@@ -228,6 +228,11 @@ void run_case(uint64_t idx, Rng& r) {
     dense_at = r.below(nops); small_at = (dense_at + 1 + r.below(nops - 1)) % nops;
   }
   std::vector<Operand> ops(nops);
+  // planted pair of inputs whose coupons share the full 26-bit address but differ in value (two distinct coupons in
+  // coupon mode, one register in HLL mode): the two halves go to the same or to different operands
+  const bool plant = r.chance(0.3) && !same_address_pairs().empty();
+  const AddrPair plant_pair = plant ? same_address_pairs()[r.below(same_address_pairs().size())] : AddrPair{0, 0, 0, 0};
+  const size_t plant_hi_at = plant ? r.below(nops) : nops, plant_lo_at = plant ? r.below(nops) : nops;
   uint64_t universe = 0;
   bool any_big = lg_max_k >= 17;
   std::string cdesc = "lg_max_k=" + std::to_string(lg_max_k) + " ops=[";
@@ -280,8 +285,17 @@ void run_case(uint64_t idx, Rng& r) {
     std::vector<uint8_t> dregs;
     size_t below_target = 0;
     if (dense_target) { dregs.assign(size_t(1) << op.lg_k, 0); below_target = dregs.size(); }
+    uint64_t ph = cnt, pl = cnt;        // positions of the planted inputs inside this operand (cnt = none)
+    if (plant && cnt >= 2 && !dense_target) {
+      if (i == plant_hi_at) ph = r.below(cnt);
+      if (i == plant_lo_at) { pl = r.below(cnt); if (pl == ph) pl = (pl + 1) % cnt; }
+      if (ph < cnt || pl < cnt) count("planted_same_address_coupon_halves");
+      if (ph < cnt && pl < cnt) count("planted_same_address_pair_in_one_operand");
+    }
     for (uint64_t j = 0; j < cnt; ++j) {
       Val v = make_val(cfg, base + j);
+      if (j == ph) { v = Val(); v.kind = V_U64; v.u = plant_pair.x_hi; }
+      if (j == pl) { v = Val(); v.kind = V_U64; v.u = plant_pair.x_lo; }
       if (!v.ignored()) {
         const uint32_t c = coupon_of(v);
         op.coupons.push_back(c);
@@ -386,6 +400,7 @@ void run_case(uint64_t idx, Rng& r) {
   }
   count(std::string("lg_max_k_") + (lg_max_k < 8 ? "4_7" : (lg_max_k <= 13 ? "8_13" : "14_21")));
   if (scenario) count("scenario_cases");
+  if (plant) count("planted_same_address_coupon_pairs");
   if (dense_variant) count("dense_scenario_cases_v" + std::to_string(dense_variant));
   (void)idx;
 }
